@@ -256,6 +256,10 @@ fn run_case(case: &J) -> J {
             s.num_tune = num_tune;
             s.num_draws = num_draws;
             s.maxdepth = ju(case, "maxdepth", 5);
+            if js(case, "kind", "euclidean") == "exact_normal" {
+                s.trajectory_kind = nuts_rs::KineticEnergyKind::ExactNormal;
+            }
+            s.max_energy_error = jf(case, "max_energy_error", s.max_energy_error);
             s.adapt_options.mass_matrix_options.store_mass_matrix = jb(case, "store_mass_matrix", false);
             s.adapt_options.mass_matrix_options.use_grad_based_estimate = jb(case, "use_grad_based_estimate", true);
             apply_euclid_opts!(s, case);
@@ -266,6 +270,10 @@ fn run_case(case: &J) -> J {
             s.num_tune = num_tune;
             s.num_draws = num_draws;
             s.maxdepth = ju(case, "maxdepth", 5);
+            if js(case, "kind", "euclidean") == "exact_normal" {
+                s.trajectory_kind = nuts_rs::KineticEnergyKind::ExactNormal;
+            }
+            s.max_energy_error = jf(case, "max_energy_error", s.max_energy_error);
             s.adapt_options.mass_matrix_options.store_mass_matrix = jb(case, "store_mass_matrix", false);
             s.adapt_options.mass_matrix_options.gamma = jf(case, "lr_gamma", s.adapt_options.mass_matrix_options.gamma);
             s.adapt_options.mass_matrix_options.eigval_cutoff = jf(case, "eigval_cutoff", s.adapt_options.mass_matrix_options.eigval_cutoff);
